@@ -28,6 +28,18 @@ CHECKS = {
  "C08": ("differential monitor: every generated operator / conversion implementation against the reference form &a op &b with lifted scalars, on every type",
          "Runtime monitoring: ~9e5 (quick) / ~9e7 (thorough) form comparisons over 43 types and 90 forms (owned/borrowed/mixed, assign, scalar, neg, inv, mul_add, Sum/Product by value and reference for lengths 0..5, From<F>, 14 FromPrimitive conversions, Zero/One, 19 FloatConst constants), with hostile real parts (exact 0 with non-zero parts, exact 1).",
          "exact comparison except scalar division (6 ulp) and the two num-traits default constants LOG10_2 / LOG2_10 (2 ulp)", "DESIGN.md 3/C08"),
+ "C09": ("reference-model monitor for powi/powf/powd over stratified exponent classes + cross-agreement monitor (powi vs powf vs powd vs repeated multiplication vs exp(n ln x)); overflow sanitizer (overflow-checks build, panics caught) and wrapping build as companion pass",
+         "Runtime monitoring: ~4e5 (quick) / ~3e7 (thorough) power evaluations per build profile over 42 types; exponents: every n in [-64,64], +-2^k(+-1) to 2^30, the i32 overflow frontiers, log-uniform to 2^30; real exponents 0/1/2/3/4 with +-3 ulp neighbours, negative, fractional, +-300, tiny; dual exponents with zero/one/two real part; negative bases for integer exponents.",
+         "float powi loses ~|n|u/2 by repeated squaring, which the bound charges; libm pow trusted; K=32 (max observed ratio ~10)", "DESIGN.md 3/C09"),
+ "C10": ("reference-model monitor on an enumerated set of special points: (function, point, type) exhaustive, derivative parts random; finite-and-correct verdict against analytically known Taylor coefficients",
+         "Runtime monitoring: 165 (function, point) pairs x 47 types (orders up to 6) x 24 (quick) / 1200 (thorough) part draws: powi/powf at +-0, exp_m1/ln_1p at +-0 and denormals, sph_j* at 0/denormal/eps neighbours/series switch, bessel_j* at 0/1e-300/1e-5/0.5/5 neighbours, atan2 on both axes with signed zeros and denormals.",
+         "orders above 6 are outside the enumerated set; absolute floor at the denormal level", "DESIGN.md 3/C10"),
+ "C14": ("reference-model monitor for bessel_j0/j1/j2 on all Copy f64 types over a stratified sweep of [-60,60] + special points, truth from linear combinations of libm jn; parity monitor",
+         "Runtime monitoring: ~2e5 (quick) / ~5e6+ (thorough) evaluations over 20 types (orders up to 4, plus HyperDual<HyperDual64>), 11 argument regions incl. both sides of every branch point, absolute tolerance K*u*sum|terms| with AMP=8 per derivative order.",
+         "libm jn trusted to ~1 ulp absolute; K=32, AMP=8 calibrated (max observed ratio ~7)", "DESIGN.md 3/C14"),
+ "C15": ("reference-model monitor for sph_j0/j1/j2 on every type incl. plain floats over a stratified sweep of [-50,50] + special points; truth from Maclaurin series / series division; dual real part vs float instance",
+         "Runtime monitoring: ~4e5 (quick) / ~3e7 (thorough) evaluations over 47 types (f32/f64, orders up to 6), 10 argument regions incl. denormals, both sides of the series switch, 10^-k, zeros of j_n, negative sweep.",
+         "tolerance relative to |true part| plus the absolute level 1/max(|x|,1) with binomial growth per derivative; K=32 (max observed ratio ~10)", "DESIGN.md 3/C15"),
  "C01": ("reference-model monitor: every call of every elementary function on every type vs power-series Taylor composition, stratified random inputs",
          "Runtime monitoring: the real functions are executed on ~3e5 (quick) / ~1e7 (thorough) generated operands over 51 type instantiations and every argument region; each result part is compared with an independent truncated-Taylor-algebra model within 32*u*sum|terms|. Holds on what was observed, not a proof.",
          "trusts libm for g(x0); tolerance constant calibrated on the unchanged tree (max observed ratio < 10)", "DESIGN.md 3/C01"),
